@@ -514,6 +514,21 @@ class World(object):
                 w.raise_errno(f['kind'], path)
             return permute(path, real_listdir(path))
 
+        # tempfile draws its candidate names from an os.urandom-seeded generator: put it behind the seed
+        import tempfile
+        self._saved_tmpnames = tempfile._name_sequence
+
+        class _Names(object):
+            def __init__(self, seed):
+                self.r = seeds.rng(seed, 'tempfile-names')
+
+            def __iter__(self):
+                return self
+
+            def __next__(self):
+                return ''.join(self.r.choice('abcdefghijklmnopqrstuvwxyz0123456789_') for _ in range(8))
+        tempfile._name_sequence = _Names(w.listing_seed)
+
         builtins.open = sim_open
         io.open = sim_open
         os.scandir = sim_scandir
@@ -543,15 +558,19 @@ class World(object):
         self._saved['os.open'] = real_os_open
 
         def sim_os_open(path, flags, *a, **k):
+            fd = real_os_open(path, flags, *a, **k)
             if flags & (os.O_WRONLY | os.O_RDWR | os.O_CREAT | os.O_TRUNC | os.O_APPEND):
+                # logged once it has succeeded: a failed O_EXCL probe of an existing name modifies nothing
                 if w.rel(path) is not None:
                     w.modlog('os.open:%d' % flags, path)
                 else:
                     w.outside.append(w.norm(path))
-            return real_os_open(path, flags, *a, **k)
+            return fd
         os.open = sim_os_open
 
     def uninstall(self):
+        import tempfile
+        tempfile._name_sequence = self._saved_tmpnames
         for k, v in self._saved.items():
             mod, _, name = k.partition('.')
             setattr({'builtins': builtins, 'io': io, 'os': os}[mod], name, v)
